@@ -493,7 +493,7 @@ def run(ctx: core.Ctx):
         "level conditions used are symmetric in l/r and evaluated by the harness; unique ids distinct",
         "sampled (max_pairs < total) estimates are only required to be reproducible under a seed, not exact",
     ]
-    errs = tarith.write()
+    errs = tarith.write({"_rows_needed_for_n_pairs", "_proportion_sample_size_link_only"})
     ctx.lean = core.lean_check(PROP, ctx.thorough)
     if errs:
         ctx.lean.ok = False
